@@ -5,11 +5,11 @@ namespace glm
 	template<typename T, qualifier Q>
 	GLM_FUNC_QUALIFIER vec<3, T, Q> convertLinearSRGBToD65XYZ(vec<3, T, Q> const& ColorLinearSRGB)
 	{
-		vec<3, T, Q> const M(0.490f, 0.17697f, 0.2f);
-		vec<3, T, Q> const N(0.31f,  0.8124f, 0.01063f);
-		vec<3, T, Q> const O(0.490f, 0.01f, 0.99f);
+		vec<3, T, Q> const M(0.4124f, 0.2126f, 0.0193f);
+		vec<3, T, Q> const N(0.3576f, 0.7152f, 0.1192f);
+		vec<3, T, Q> const O(0.1805f, 0.0722f, 0.9505f);
 
-		return (M * ColorLinearSRGB.x + N * ColorLinearSRGB.y + O * ColorLinearSRGB.z) * static_cast<T>(5.650675255693055f);
+		return M * ColorLinearSRGB.x + N * ColorLinearSRGB.y + O * ColorLinearSRGB.z;
 	}
 
 	template<typename T, qualifier Q>
@@ -25,9 +25,9 @@ namespace glm
 	template<typename T, qualifier Q>
 	GLM_FUNC_QUALIFIER vec<3, T, Q> convertD65XYZToLinearSRGB(vec<3, T, Q> const& ColorD65XYZ)
 	{
-		vec<3, T, Q> const M(0.41847f, -0.091169f, 0.0009209f);
-		vec<3, T, Q> const N(-0.15866f, 0.25243f, 0.015708f);
-		vec<3, T, Q> const O(0.0009209f, -0.0025498f, 0.1786f);
+		vec<3, T, Q> const M(3.2406f, -0.9689f, 0.0557f);
+		vec<3, T, Q> const N(-1.5372f, 1.8758f, -0.2040f);
+		vec<3, T, Q> const O(-0.4986f, 0.0415f, 1.0570f);
 
 		return M * ColorD65XYZ.x + N * ColorD65XYZ.y + O * ColorD65XYZ.z;
 	}
